@@ -201,8 +201,10 @@ class AsyncProtocol(Protocol, EventManager[PhysicalDevice]):
         while self.connected.is_set():
             try:
                 if not queues.write.empty():
-                    await writer.write(await queues.write.get())
-                    queues.write.task_done()
+                    try:
+                        await writer.write(await queues.write.get())
+                    finally:
+                        queues.write.task_done()
 
                 if response := await reader.read():
                     queues.read.put_nowait(response)
